@@ -106,6 +106,7 @@ type Event struct {
 	ID      string          `json:"id"`
 	Verdict bool            `json:"verdict"`
 	Attr    string          `json:"attr"`
+	Rem     string          `json:"rem"`
 	Val     *Value          `json:"val"`
 	WReqs   []WriteReq      `json:"-"`
 	GReqs   []GetReq        `json:"-"`
